@@ -62,6 +62,7 @@ void yv_alloc_reset(void);
 extern void* yv_fail_bt[12]; extern int yv_fail_bt_n;   /* backtrace of the first injected failure */
 
 /* ---------- harness-owned clock (stopwatch.c is compiled with -Dclock_gettime=yv_clock_gettime) ---------- */
+extern int yv_clock_last_id;
 extern int yv_clock_virtual;      /* 0 = real clock */
 extern long yv_clock_polls;       /* number of clock reads since reset */
 extern long yv_clock_jump_at;     /* poll index (1-based) at which time jumps by yv_clock_jump_ns; 0 = never */
